@@ -62,6 +62,12 @@ pub use transaction::{Transaction, TransactionManager, TxPhase};
 
 mod simd;
 
+/// Verification hook: the private SIMD filter kernels, re-exported for external harnesses.
+#[cfg(feature = "neumann_verif")]
+pub mod verif_simd {
+    pub use crate::simd::*;
+}
+
 pub mod cursor;
 pub mod observability;
 
